@@ -70,6 +70,18 @@ def gen_scenario(rng: random.Random, sid, idempotent=None, n_faults=None, **over
     return sc
 
 
+def old_broker(sc, rng):
+    """the same scenario against an older broker release (an idempotent producer needs one with InitProducerId)"""
+    from simkit import profiles
+    names = profiles.TRANSACTIONAL if sc.get("idempotent") else list(profiles.BROKER_PROFILES)
+    name = rng.choice(names)
+    sc["api_ranges"] = profiles.api_ranges(name)
+    if name.startswith("0.10") and sc.get("compression") not in (None, "gzip"):
+        sc["compression"] = None
+    sc["family"] = "old-broker:" + name
+    return sc
+
+
 def run_scenarios(scs, timeout=900, shards=None):
     """Run scenarios in parallel worker processes; returns results in input order."""
     if not scs:
